@@ -11,9 +11,6 @@ from ..core import Prop
 compat.install()
 
 _M = {}
-# largest distance (Morgans) for which binary64 still resolves 1 - 2r well enough to invert to 1e-8:
-# 1 - 2r = exp(-2d) (Haldane), ~ 2 exp(-4d) (Kosambi)
-_DMAX = {"haldane": 6, "kosambi": 3}
 
 
 def _mods():
@@ -112,8 +109,9 @@ class C11(Prop):
                    "within 1e-9 of the exact rational model",
                    "gdist1g/gdist1p are called on label arrays whose equal labels are contiguous (documented "
                    "precondition 'sorted'; interp_xoprob enforces it through is_grouped_vrnt)",
-                   "inverse map functions are compared for d <= 6 Morgans (Haldane) / d <= 3 Morgans (Kosambi) and "
-                   "d = inf: binary64 cannot resolve 1 - 2r beyond that"]
+                   "round trip invmapfn(mapfn d): demanded to 1e-10 + 2*2^-50*3^ceil(kappa d) (kappa = 2 Haldane, 4 Kosambi), the "
+                   "conditioning bound proved in mapfn_roundtrip_conditioning for a float mapfn accurate to 8 ulp of 1; "
+                   "nothing is demanded once 4*2^-50*3^ceil(kappa d) > 1 (d > 15 M / 7.5 M) except d = inf"]
 
     # ------------------------------------------------------------------ generation
     def _gen_map(self, rng, nchr=None, labels=None, like=None):
@@ -208,6 +206,34 @@ class C11(Prop):
                         "mchr": [2, 1, 1, 2, 3], "mphy": [15, 12, 25, 35, 5]})
             out.append({"kind": "xoprob", "cls": "ext", "fn": fn, "phased": False, "rows": rows_d,
                         "mchr": [2, 1, 1, 2, 3, 3, 1], "mphy": [15, 12, 25, 35, 5, 9, 30]})
+        # editing histories: one pass of remove_discrepancies leaves [0, 5, 2, 6]; the spline is the old one
+        # until build_spline is called
+        rows_e = [[1, 10, 0, 0], [1, 20, 5, 1], [1, 30, 1, 2], [1, 40, 2, 3], [1, 50, 6, 4], [2, 5, 0, 5], [2, 9, 1, 6]]
+        for cls in ("std", "ext"):
+            out.append({"kind": "edit", "cls": cls, "auto_group": True, "rows": rows_e,
+                        "ops": [{"op": "rd"}, {"op": "build"}, {"op": "rd"}, {"op": "remove", "idx": [0]},
+                                {"op": "select", "idx": [2, 0, 1]}],
+                        "qchr": [1, 1, 1, 2, 3], "qphy": [30, 25, 45, 7, 1]})
+            out.append({"kind": "edit", "cls": cls, "auto_group": False, "rows": list(reversed(rows_e)),
+                        "ops": [{"op": "remove", "idx": [1, 3]}, {"op": "build"}, {"op": "rd"}],
+                        "qchr": [1, 1, 2], "qphy": [30, 25, 7]})
+        rows_k = [[1, 10, 0, 0], [1, 20, "1/2", 1], [1, 30, "3/4", 2], [1, 40, "3/2", 3], [1, 50, 2, 4],
+                  [2, 5, 0, 5], [2, 9, 1, 6], [2, 13, "5/4", 7], [2, 20, 3, 8], [2, 31, 4, 9]]
+        for kind in ("slinear", "previous", "next", "zero", "nearest", "nearest-up", "quadratic", "cubic"):
+            for cls in ("std", "ext"):
+                out.append({"kind": "spline", "cls": cls, "spline_kind": kind, "rows": rows_k,
+                            "perm": [9, 8, 7, 6, 5, 4, 3, 2, 1, 0],
+                            "qchr": [1, 1, 1, 1, 1, 1, 2, 3, 2], "qphy": [10, 15, 20, 25, 5, 60, 7, 1, 31]})
+        rows_p = [[1, p, canon.enc(Fraction(gp, 16)), t] for t, (p, gp) in enumerate(
+            [(10, 0), (12, 1), (19, 2), (20, 4), (31, 5), (40, 9), (41, 10), (60, 16), (75, 17), (100, 32)])] + \
+                 [[2, 5, 0, 10], [2, 50, "1/2", 11], [2, 51, 1, 12]]
+        for nt_, m_ in ((20, None), (None, "1/2"), (15, "1/2"), (7, None), (None, 1)):
+            out.append({"kind": "edit", "cls": "ext", "auto_group": True, "rows": rows_p,
+                        "ops": [{"op": "prune", "nt": nt_, "M": m_}, {"op": "build"}],
+                        "qchr": [1, 1, 2], "qphy": [10, 55, 30]})
+        out.append({"kind": "sortdup", "cls": "ext",
+                    "rows": [[1, 10, "1/2", 0], [1, 10, "1/2", 1], [1, 10, "1/4", 2], [1, 5, 1, 3], [1, 10, "1/2", 4],
+                             [0, 10, "1/2", 5], [1, 5, 1, 6]]})
         # one matrix placed on a map, then on a DIFFERENT map (and map function); and a matrix constructed
         # with unrelated vrnt_genpos / vrnt_xoprob: the answer must come from the map actually passed
         rows_b = [[1, 10, 0, 0], [1, 30, 2, 1], [2, 10, "1/2", 2], [2, 40, "3/4", 3], [3, 1, 0, 4], [3, 9, 1, 5]]
@@ -234,9 +260,10 @@ class C11(Prop):
             cls = rng.choice(["std", "ext"])
             if u < 0.15:
                 pool = [0, 0, Fraction(1, 2 ** 40), Fraction(1, 1024), Fraction(1, 64), Fraction(1, 8), Fraction(1, 4),
-                        Fraction(1, 2), 1, Fraction(3, 2), 2, 3, Fraction(9, 2), 6, 10, 20, 40, 700, "inf"]
+                        Fraction(1, 2), 1, Fraction(3, 2), 2, 3, Fraction(9, 2), 6, 7, Fraction(15, 2), 10, 12, 14, 15,
+                        20, 40, 700, "inf"]
                 k = rng.randint(1, 10)
-                d = [rng.choice(pool) if rng.random() < 0.6 else Fraction(rng.randint(0, 6 * 256), 256)
+                d = [rng.choice(pool) if rng.random() < 0.6 else Fraction(rng.randint(0, 16 * 256), 256)
                      for _ in range(k)]
                 out.append({"kind": "mapfn", "fn": rng.choice(["haldane", "kosambi"]),
                             "d": [x if isinstance(x, str) else canon.enc(Fraction(x)) for x in d]})
@@ -266,6 +293,74 @@ class C11(Prop):
                     pick = lambda: rng.choice([None, rng.randint(0, n_)])
                     sl = {k: pick() for k in ("ast", "asp", "rst", "rsp", "cst", "csp")}
                 out.append({"kind": "gdist", "cls": cls, "chr": chr_, "gen": gen, "slices": sl})
+            elif u < 0.47:
+                # history of editing calls on ONE map object (remove / select / remove_discrepancies /
+                # build_spline), interrogated after every call
+                rows = self._gen_map(rng)
+                n0 = len(rows)
+                ops = []
+                n_est = n0
+                for _ in range(rng.randint(1, 4)):
+                    w = rng.random()
+                    if w < 0.3 and n_est > 2:
+                        kk = rng.randint(1, min(2, n_est - 1))
+                        ops.append({"op": "remove", "idx": sorted(rng.sample(range(n_est), kk))})
+                        n_est -= kk
+                    elif w < 0.5 and n_est > 2:
+                        kk = rng.randint(max(1, n_est - 2), n_est)
+                        ops.append({"op": "select", "idx": rng.sample(range(n_est), kk)})
+                        n_est = kk
+                    elif w < 0.7:
+                        ops.append({"op": "rd"})
+                        n_est = 0         # size unknown from here on: no index-based calls any more
+                    elif w < 0.85 and cls == "ext":
+                        mode = rng.choice(["nt", "M", "both"])
+                        ops.append({"op": "prune",
+                                    "nt": None if mode == "M" else rng.choice([3, 7, 20, 50, 200, 5000, 300000]),
+                                    "M": None if mode == "nt" else canon.enc(Fraction(rng.choice([1, 2, 4, 8, 16, 48]), 16))})
+                        n_est = 0
+                    else:
+                        ops.append({"op": "build"})
+                qchr, qphy = self._gen_queries(rng, rows, nq=rng.randint(2, 8))
+                out.append({"kind": "edit", "cls": cls, "auto_group": rng.random() < 0.8, "rows": rows,
+                            "ops": ops, "qchr": qchr, "qphy": qphy})
+            elif u < 0.53:
+                # spline kinds other than the default: step kinds and slinear through the Lean model, quadratic and
+                # cubic against the kind-independent part of the clause only
+                kind = rng.choice(["slinear", "previous", "next", "zero", "nearest", "nearest-up", "quadratic", "cubic"])
+                rows = self._gen_map(rng)
+                if kind in ("quadratic", "cubic"):
+                    # these need >= 3 / 4 knots per chromosome: top every chromosome up to 5 markers
+                    extra = []
+                    for c in sorted({r[0] for r in rows}):
+                        ph = [int(r[1]) for r in rows if r[0] == c]
+                        while len(ph) + sum(1 for e in extra if e[0] == c) < 5:
+                            np_ = max(ph + [e[1] for e in extra if e[0] == c]) + rng.randint(1, 30)
+                            extra.append([c, np_, canon.enc(Fraction(rng.randint(0, 192), 64)), 0])
+                    rows = rows + extra
+                    rng.shuffle(rows)
+                    for t, r in enumerate(rows):
+                        r[3] = t
+                qchr, qphy = self._gen_queries(rng, rows)
+                perm = list(range(len(rows)))
+                rng.shuffle(perm)
+                out.append({"kind": "spline", "cls": cls, "spline_kind": kind, "rows": rows, "perm": perm,
+                            "qchr": qchr, "qphy": qphy})
+            elif u < 0.56:
+                # duplicated sort keys with different riding columns: the stored order shows the STABILITY of the
+                # three-pass lexsort (extended class only; such maps are outside the property's quantifier)
+                rows = self._gen_map(rng, nchr=rng.choice([1, 2]))
+                extra = []
+                for r in rng.sample(rows, min(len(rows), rng.randint(1, 4))):
+                    d = list(r)
+                    if rng.random() < 0.5:
+                        d[2] = canon.enc(Fraction(rng.randint(0, 192), 64))     # same (chr, phy), other genpos
+                    extra.append(d)
+                rows = rows + extra
+                rng.shuffle(rows)
+                for t, r in enumerate(rows):
+                    r[3] = t
+                out.append({"kind": "sortdup", "cls": "ext", "rows": rows})
             elif u < 0.75:
                 rows = self._gen_map(rng)
                 qsorted = rng.random() < 0.5
@@ -373,6 +468,73 @@ class C11(Prop):
                 obs["d2_stored"] = canon.enc(g3.gdist2g(g3.vrnt_chrgrp, g3.vrnt_genpos))
                 obs["stored3"] = _stored(case["cls"], g3)[0]
             return obs
+        if k == "spline":
+            def build(rows):
+                if case["cls"] == "std":
+                    m_ = _mods()
+                    chr_ = numpy.array([r[0] for r in rows], dtype=int)
+                    phy = numpy.array([int(Fraction(r[1])) for r in rows], dtype=int)
+                    gen = numpy.array([_f(r[2]) for r in rows], dtype=float)
+                    return m_["sgm"].StandardGeneticMap(chr_, phy, gen, spline_kind=case["spline_kind"])
+                # the extended constructor builds its spline with the default kind whatever `spline_kind` says:
+                # build the requested kind explicitly
+                g_ = _build_map("ext", rows)
+                g_.build_spline(kind=case["spline_kind"])
+                return g_
+            qchr = numpy.array(case["qchr"], dtype=int)
+            qphy = numpy.array(case["qphy"], dtype=int)
+            g = build(case["rows"])
+            g2 = build([case["rows"][i] for i in case["perm"]])
+            return {"out": canon.enc(g.interp_genpos(qchr, qphy)), "out2": canon.enc(g2.interp_genpos(qchr, qphy)),
+                    "kind_stored": str(g.spline_kind)}
+        if k == "sortdup":
+            g = _build_map(case["cls"], case["rows"])
+            stored, tags_ok = _stored(case["cls"], g)
+            return {"stored": stored, "tags_ok": tags_ok}
+        if k == "edit":
+            g = _build_map(case["cls"], case["rows"], case["auto_group"])
+            qchr = numpy.array(case["qchr"], dtype=int)
+            qphy = numpy.array(case["qphy"], dtype=int)
+            done, snaps = [], []
+            built_from, _ = _stored(case["cls"], g)        # rows the current spline was built from
+
+            def counts_ok():
+                _, cnt = numpy.unique(g.vrnt_chrgrp, return_counts=True)
+                return len(cnt) > 0 and bool((cnt >= 2).all())
+            for o in case["ops"]:
+                n = len(g.vrnt_chrgrp)
+                if o["op"] == "remove":
+                    if not o["idx"] or max(o["idx"]) >= n or n - len(o["idx"]) < 1:
+                        continue
+                    g.remove(numpy.array(o["idx"], dtype=int))
+                elif o["op"] == "select":
+                    if not o["idx"] or max(o["idx"]) >= n:
+                        continue
+                    g.select(numpy.array(o["idx"], dtype=int))
+                elif o["op"] == "rd":
+                    g.remove_discrepancies()
+                elif o["op"] == "prune":
+                    g.prune(nt=o["nt"], M=None if o["M"] is None else _f(o["M"]))
+                elif o["op"] == "build":
+                    if not counts_ok():            # interp1d needs two knots per chromosome
+                        continue
+                    g.build_spline()
+                    built_from, _ = _stored(case["cls"], g)
+                for step in (o, {"op": "interp", "qchr": case["qchr"], "qphy": case["qphy"]}):
+                    if step["op"] == "interp":
+                        outv = canon.enc(g.interp_genpos(qchr, qphy))
+                    else:
+                        outv = None
+                    stored, tags_ok = _stored(case["cls"], g)
+                    meta = None
+                    if g.is_grouped():
+                        meta = [[int(a), int(b), int(c), int(d)] for a, b, c, d in
+                                zip(g.vrnt_chrgrp_name, g.vrnt_chrgrp_stix, g.vrnt_chrgrp_spix, g.vrnt_chrgrp_len)]
+                    done.append(step)
+                    snaps.append({"stored": stored, "tags_ok": tags_ok, "meta": meta, "out": outv,
+                                  "built_from": built_from})
+            # is_congruent() groups an ungrouped map: ask last
+            return {"done": done, "snaps": snaps, "is_congruent": bool(g.is_congruent())}
         if k == "xoprob":
             m = _mods()
             maps = [_build_map(case["cls"], case["rows"])]
@@ -421,8 +583,7 @@ class C11(Prop):
         k = case["kind"]
         if k == "mapfn":
             return [{"op": "c11.mapfn", "fn": case["fn"], "d": case["d"]},
-                    {"op": "c11.spec_mapfn", "fn": case["fn"], "d": case["d"], "r": obs["r"], "dinv": obs["dinv"],
-                     "dmax": _DMAX[case["fn"]]}]
+                    {"op": "c11.spec_mapfn", "fn": case["fn"], "d": case["d"], "r": obs["r"], "dinv": obs["dinv"]}]
         if k == "gdist":
             reqs = [{"op": "c11.gdist", "chr": case["chr"], "gen": case["gen"]},
                     {"op": "c11.spec_gdist", "chr": case["chr"], "gen": case["gen"], "d2": obs["d2"],
@@ -443,6 +604,24 @@ class C11(Prop):
                     [{"op": "c11.spec_gdist", "chr": [r[0] for r in obs["stored3"]],
                       "gen": [r[2] for r in obs["stored3"]], "d1": obs["d1_stored"], "d2": obs["d2_stored"]}]
                     if case["auto_group"] else [])
+        if k == "spline":
+            q = {"rows": case["rows"], "qchr": case["qchr"], "qphy": case["qphy"]}
+            lin = case["spline_kind"] == "slinear"
+            reqs = [{"op": "c11.spec_interp", **q, "out": obs["out"], "out2": obs["out2"], "linear": lin,
+                     "one_sided_missing": case["spline_kind"] in ("previous", "next")}]
+            if case["spline_kind"] not in ("quadratic", "cubic"):
+                reqs.append({"op": "c11.interpk", "spline_kind": case["spline_kind"], **q})
+            return reqs
+        if k == "sortdup":
+            return [{"op": "c11.construct", "rows": case["rows"]}]
+        if k == "edit":
+            reqs = [{"op": "c11.edit", "rows": case["rows"], "auto_group": case["auto_group"], "ops": obs["done"]}]
+            # the interpolation clause of the property, for the map the spline was built from
+            for st, sn in zip(obs["done"], obs["snaps"]):
+                if st["op"] == "interp":
+                    reqs.append({"op": "c11.spec_interp", "rows": sn["built_from"], "qchr": st["qchr"],
+                                 "qphy": st["qphy"], "out": sn["out"], "out2": sn["out"]})
+            return reqs
         if k == "xoprob":
             q = {"qchr": obs["qchr"], "qphy": obs["qphy"]}
             reqs = [{"op": "c11.rprob", "fn": case["fn"], "rows": case["rows"], **q}]
@@ -496,8 +675,10 @@ class C11(Prop):
             # r against the Float model; the inverse is compared through the Spec (conditioning)
             corr = self._close_list(m["r"], obs["r"], 1e-12, 1e-15)
             fin = [x for x in case["d"] if x != "inf"]
-            inv_ok = all(canon.close_enc(a, b, 1e-7, 1e-9) for a, b, x in zip(m["inv"], obs["dinv"], case["d"])
-                         if x == "inf" or Fraction(x) <= _DMAX[case["fn"]])
+            # the two inverses start from probabilities that may differ by an ulp: each is within the conditioning
+            # bound `invtol` (Model/GMapSpec.invTol, Lemmas/MapFnCond) of d, so they are within twice that
+            inv_ok = all(t is None or canon.close_enc(a, b, 2e-9, 2 * float(Fraction(t)) + 1e-12)
+                         for a, b, t in zip(m["inv"], obs["dinv"], m["invtol"]))
             corr = corr and inv_ok
             spec = bool(s["ok"]) and obs["input_untouched"]
             nontriv = len(set(map(str, case["d"]))) >= 3 and any(Fraction(x) > 0 for x in fin)
@@ -582,6 +763,58 @@ class C11(Prop):
             nontriv = between and srt != case["rows"]
             return {"corr": corr, "spec": spec, "nontrivial": nontriv,
                     "detail": f"interp[{case['cls']}] spec: {detail}; corr: {why or 'ok'}; out={obs['out']} model={mi['out']}"}
+        if k == "spline":
+            sp = ans[0]
+            why = []
+            if obs["kind_stored"] != case["spline_kind"]:
+                why.append("spline_kind attribute")
+            if len(ans) > 1 and not self._close_list(ans[1]["out"], obs["out"]):
+                why.append("interp_genpos differs from the model of this spline kind")
+            return {"corr": not why, "spec": bool(sp["ok"]), "nontrivial": len(case["qchr"]) >= 2,
+                    "detail": f"spline[{case['cls']},{case['spline_kind']}] spec: {sp['detail']}; corr: {why or 'ok'}; "
+                              f"out={obs['out']}" + (f" model={ans[1]['out']}" if len(ans) > 1 else "")}
+        if k == "sortdup":
+            mc = ans[0]
+
+            def same(a, b):
+                return len(a) == len(b) and all(x[0] == y[0] and canon.close_enc(x[1], y[1]) and
+                                                canon.close_enc(x[2], y[2]) and x[3] == y[3] for x, y in zip(a, b))
+            why = []
+            if not same(mc["rows"], obs["stored"]):
+                why.append("stored rows (incl. riding columns) differ from the lexicographic stable sort")
+            if not same(mc["rows3"], obs["stored"]):
+                why.append("stored rows differ from the three-pass lexsort")
+            if not obs["tags_ok"]:
+                why.append("riding columns detached")
+            keys = [(r[0], str(r[1])) for r in case["rows"]]
+            return {"corr": not why, "spec": True, "nontrivial": len(set(keys)) < len(keys),
+                    "detail": f"sortdup corr: {why or 'ok'}; stored={obs['stored']}"}
+        if k == "edit":
+            msn = ans[0]
+            why = []
+            if len(msn) != len(obs["snaps"]):
+                why.append("number of snapshots")
+            for n, (st, a, b) in enumerate(zip(obs["done"], msn, obs["snaps"])):
+                tag = f"step{n}:{st['op']}"
+                same_rows = (len(a["rows"]) == len(b["stored"]) and all(
+                    x[0] == y[0] and canon.close_enc(x[1], y[1]) and canon.close_enc(x[2], y[2]) and
+                    (case["cls"] == "std" or x[3] == y[3]) for x, y in zip(a["rows"], b["stored"])))
+                if not same_rows:
+                    why.append(tag + " stored rows")
+                if a["meta"] != b["meta"]:
+                    why.append(tag + " group metadata")
+                if not b["tags_ok"]:
+                    why.append(tag + " riding columns detached")
+                if st["op"] == "interp" and (a["out"] is None or not self._close_list(a["out"], b["out"])):
+                    why.append(tag + " interp_genpos")
+            if msn and msn[-1]["congruent"] != obs["is_congruent"]:
+                why.append("is_congruent")
+            specs = ans[1:]
+            spec = all(x["ok"] for x in specs)
+            edited = any(st["op"] in ("remove", "select", "rd", "prune") for st in obs["done"])
+            return {"corr": not why, "spec": spec, "nontrivial": edited and len(obs["done"]) >= 2,
+                    "detail": f"edit[{case['cls']}] spec: {[x['detail'] for x in specs if not x['ok']] or 'ok'}; "
+                              f"corr: {why or 'ok'}; done={[st['op'] for st in obs['done']]}"}
         if k == "xoprob":
             mr = ans[0]
             why = []
@@ -653,6 +886,23 @@ class C11(Prop):
                 if len(case["chr"]) > 1:
                     yield {**case, "chr": case["chr"][:i] + case["chr"][i + 1:],
                            "gen": case["gen"][:i] + case["gen"][i + 1:], "slices": None}
+        elif k == "spline":
+            for i in range(len(case["qchr"])):
+                if len(case["qchr"]) > 1:
+                    yield {**case, "qchr": case["qchr"][:i] + case["qchr"][i + 1:],
+                           "qphy": case["qphy"][:i] + case["qphy"][i + 1:]}
+        elif k == "sortdup":
+            for i in range(len(case["rows"])):
+                if len(case["rows"]) > 2:
+                    yield {**case, "rows": case["rows"][:i] + case["rows"][i + 1:]}
+        elif k == "edit":
+            for i in range(len(case["ops"])):
+                if len(case["ops"]) > 1:
+                    yield {**case, "ops": case["ops"][:i] + case["ops"][i + 1:]}
+            for i in range(len(case["qchr"])):
+                if len(case["qchr"]) > 1:
+                    yield {**case, "qchr": case["qchr"][:i] + case["qchr"][i + 1:],
+                           "qphy": case["qphy"][:i] + case["qphy"][i + 1:]}
         elif k in ("interp", "xoprob"):
             qa, qb = ("qchr", "qphy") if k == "interp" else ("mchr", "mphy")
             if k == "xoprob":
@@ -799,7 +1049,58 @@ class C11(Prop):
             if self._vrnt_genpos is None:
                 self.vrnt_genpos = gmap.interp_genpos(self._vrnt_chrgrp, self._vrnt_phypos)
 
+        def remove_without_regroup(self, indices, **kw):
+            self.vrnt_chrgrp = numpy.delete(self.vrnt_chrgrp, indices)
+            self.vrnt_phypos = numpy.delete(self.vrnt_phypos, indices)
+            if hasattr(self, "_vrnt_stop"):
+                self.vrnt_stop = numpy.delete(self.vrnt_stop, indices)
+            self.vrnt_genpos = numpy.delete(self.vrnt_genpos, indices)
+            if getattr(self, "_vrnt_name", None) is not None:
+                self.vrnt_name = numpy.delete(self.vrnt_name, indices)
+            if getattr(self, "_vrnt_fncode", None) is not None:
+                self.vrnt_fncode = numpy.delete(self.vrnt_fncode, indices)
+
+        def congruence_strict(self):
+            if not self.is_grouped():
+                self.group()
+            out = numpy.zeros(len(self._vrnt_phypos), dtype='bool')
+            for st, sp in zip(self._vrnt_chrgrp_stix, self._vrnt_chrgrp_spix):
+                out[st] = True
+                out[st+1:sp] = self._vrnt_genpos[st:sp-1] < self._vrnt_genpos[st+1:sp]
+            return out
+
+        def remove_discrepancies_noop(self):
+            self.congruence()
+
+        def lexsort_unstable(self, keys=None, **kw):
+            n = len(self.vrnt_chrgrp)
+            return numpy.lexsort((-numpy.arange(n), self.vrnt_genpos, self.vrnt_phypos, self.vrnt_chrgrp))
+
+        def mk_build_linear_only(cls_):
+            real = cls_.build_spline
+
+            def build_spline_linear_only(self, kind='linear', fill_value='extrapolate', **kw):
+                real(self, 'linear', fill_value)
+                self.spline_kind = kind
+            return build_spline_linear_only
+
+        real_prune = E.prune
+
+        def prune_spacing_doubled(self, nt=None, M=None):
+            return real_prune(self, nt=None if nt is None else 2 * nt, M=None if M is None else 2 * M)
+
         return [
+            ("prune_spacing_doubled", lambda: patch(E, "prune", prune_spacing_doubled)),
+            ("build_spline_ignores_kind", lambda: both(patch(S, "build_spline", mk_build_linear_only(S)),
+                                                       patch(E, "build_spline", mk_build_linear_only(E)))),
+            ("remove_without_regroup", lambda: both(patch(S, "remove", remove_without_regroup),
+                                                    patch(E, "remove", remove_without_regroup))),
+            ("congruence_strict", lambda: both(patch(S, "congruence", congruence_strict),
+                                               patch(E, "congruence", congruence_strict))),
+            ("remove_discrepancies_noop", lambda: both(patch(S, "remove_discrepancies", remove_discrepancies_noop),
+                                                       patch(E, "remove_discrepancies", remove_discrepancies_noop))),
+            ("lexsort_not_stable", lambda: both(patch(S, "lexsort", lexsort_unstable),
+                                                patch(E, "lexsort", lexsort_unstable))),
             ("interp_xoprob_keeps_existing_genpos", lambda: patch(D, "interp_xoprob", xoprob_keeps_existing_genpos)),
             ("interp_xoprob_keeps_existing_xoprob", lambda: patch(D, "interp_xoprob", xoprob_keeps_existing_xoprob)),
             ("interp_genpos_keeps_existing", lambda: patch(D, "interp_genpos", genpos_keeps_existing)),
